@@ -355,3 +355,74 @@ def rule_invented_default(prog, rep, tier, entry="docstring_parsers.parse_docstr
                         "without a default comes back with one (0, '', a None placeholder), so parse(emit(IR)) differs from IR and a parameter Python sees as required is reported as optional"
                         % (g.qualname, fi.qualname, q, src(val, 50) if val is not None else "?", fi.qualname, src(st, 70)), loc(prog, c)))
     rep.ob("INVENTED-DEFAULT", "%d writes of 'default', %d flag-controlled inventions, %d call sites on the docstring reader's path" % (n_writes, len(inventors), n), "holds", "", "listed above")
+
+
+# ---------------------------------------------------------------------------- DEFAULT-KIND
+STR_ONLY_METHODS = {"strip", "lstrip", "rstrip", "startswith", "endswith", "split", "rsplit", "splitlines", "partition", "rpartition", "replace", "lower", "upper", "casefold",
+                    "join", "isdecimal", "isdigit", "isnumeric", "isalpha", "isspace", "encode", "count", "find", "index", "title", "capitalize", "zfill", "format"}
+
+
+def rule_default_kind(prog, rep, tier, scope=None):
+    """DEFAULT-KIND: a default in the IR is a str, an int, a float, a bool or None (the domain of every round-trip property).
+    An operation only a str has - a str method, len(), indexing - applied to a read of the IR key 'default' needs evidence that
+    this default is a str: an enclosing `isinstance(<it>, str)`, a package predicate that makes that test (`code_quoted`), or a
+    comparison of it with a str constant.  A truth test is no such evidence (5 and True are truthy)."""
+    from sa.rules.falsy import _default_names, _is_default_read
+    fns = list(scope) if scope is not None else list(prog.all_functions())
+    # package predicates whose body tests isinstance(<first parameter>, str)
+    str_preds = set()
+    for f in prog.all_functions():
+        pn = f.params()
+        if pn and any(isinstance(c, ast.Call) and isinstance(c.func, ast.Name) and c.func.id == "isinstance" and len(c.args) == 2 and isinstance(c.args[0], ast.Name)
+                      and c.args[0].id == pn[0] and "str" in {n.id for n in ast.walk(c.args[1]) if isinstance(n, ast.Name)} for c in ast.walk(f.node)):
+            str_preds.add(f.qualname)
+    n = 0
+    for fi in fns:
+        dn = _default_names(prog, fi)
+        for node in ast.walk(fi.node):
+            target, what = None, None
+            if isinstance(node, ast.Call) and isinstance(node.func, ast.Attribute) and node.func.attr in STR_ONLY_METHODS:
+                target, what = node.func.value, ".%s(...)" % node.func.attr
+            elif isinstance(node, ast.Call) and isinstance(node.func, ast.Name) and node.func.id == "len" and node.args:
+                target, what = node.args[0], "len(...)"
+            elif isinstance(node, ast.Subscript) and not (isinstance(node.slice, ast.Constant) and isinstance(node.slice.value, str)):
+                target, what = node.value, "indexing"
+            if target is None:
+                continue
+            is_default = _is_default_read(target) or (isinstance(target, ast.Name) and target.id in dn)
+            if not is_default:
+                continue
+            n += 1
+            key = ast.dump(target)
+            evidence = None
+            from sa.model import enclosing_fn
+            from sa.cfg import facts
+            atoms = [(a, p_) for t, pol in expr_guards(node, stop=fi.node) for a, p_ in facts(t, pol)]
+            for c, pol in atoms:
+                if not pol:
+                    continue
+                if isinstance(c, ast.Call) and isinstance(c.func, ast.Name) and c.func.id == "isinstance" and len(c.args) == 2 and ast.dump(c.args[0]) == key \
+                        and "str" in {x.id for x in ast.walk(c.args[1]) if isinstance(x, ast.Name)}:
+                    evidence = "isinstance(.., str)"
+                elif isinstance(c, ast.Call) and isinstance(c.func, ast.Name) and c.func.id == "hasattr" and len(c.args) == 2 and ast.dump(c.args[0]) == key \
+                        and isinstance(c.args[1], ast.Constant) and c.args[1].value in ("__len__", "__getitem__") and what in ("len(...)", "indexing"):
+                    evidence = "hasattr(.., %r)" % c.args[1].value
+                elif isinstance(c, ast.Call) and c.args and ast.dump(c.args[0]) == key and isinstance(c.func, (ast.Name, ast.Attribute)) \
+                        and any(isinstance(tt, FunctionInfo) and tt.qualname in str_preds for tt in prog.resolve_expr_fn(c.func, c)):
+                    evidence = "%s(..) tests isinstance(.., str)" % src(c.func, 30)
+                elif isinstance(c, ast.Compare) and len(c.ops) == 1 and isinstance(c.ops[0], ast.Eq) and \
+                        ((ast.dump(c.left) == key and isinstance(c.comparators[0], ast.Constant) and isinstance(c.comparators[0].value, str))
+                         or (ast.dump(c.comparators[0]) == key and isinstance(c.left, ast.Constant) and isinstance(c.left.value, str))):
+                    evidence = "compared equal to a str constant"
+            where = fi
+            while where.parent_fn is not None:
+                where = where.parent_fn
+            inst = "%s: %s%s" % (prog.owner_name(where), src(target, 50), what)
+            if evidence:
+                rep.holds("DEFAULT-KIND", inst, loc(prog, node), evidence)
+            else:
+                rep.violation(Finding(
+                    "DEFAULT-KIND", prog.owner_name(where), "str-operation-on-default:%s" % what.strip(".(…)").replace("(...)", ""),
+                    "%s is applied to the IR default %s with no test that it is a str: an int, float or bool default (5, True - both truthy) raises here, "
+                    "e.g. for a function that returns a literal" % (what, src(target, 50)), loc(prog, node)))
+    rep.ob("DEFAULT-KIND", "%d str-only operations on reads of 'default' in %d functions" % (n, len(fns)), "holds", "", "listed above")
